@@ -184,7 +184,7 @@ Lemma pass_loop : forall sel h t names sig, (forall u, In u names -> u <> "") ->
 Proof. intros. rewrite py_for_pure, pass_text; auto. Qed.
 
 Lemma slash_join : forall s t : string,
-  (if (0 <? py_len t)%Z then s ++ ("/" ++ t) else s) = (if String.eqb t "" then s else s ++ "/" ++ t).
+  (if negb (String.eqb t "") then s ++ ("/" ++ t) else s) = (if String.eqb t "" then s else s ++ "/" ++ t).
 Proof. intros s [|c t]; reflexivity. Qed.
 
 (* ====================================================================== *)
@@ -206,7 +206,7 @@ Lemma match_dot : forall A (f : string -> A) (g : A) s,
 Proof. intros A f g [|[[] [] [] [] [] [] [] []] r]; reflexivity. Qed.
 
 Definition parse_exp_t (divs : Z) (s : string) : option (Z * string) :=
-  let s1 := if String.eqb (py_str_take 1 s) "^" then py_str_drop 1 s else s in
+  let s1 := if prefix "^" s then py_str_drop 1 s else s in
   if prefix "-" s1 then
     let s2 := py_str_drop 1 s1 in
     if py_match_digit (py_str_take 1 s2)
@@ -256,11 +256,11 @@ Qed.
 Lemma parse_exp_tests : forall divs s, parse_exp divs s = parse_exp_t divs s.
 Proof.
   intros divs s. unfold parse_exp, parse_exp_t. rewrite parse_tail, match_hat.
-  change "^" with (String "^"%char "") at 2. rewrite eqb_take1.
-  destruct s as [|c r]; [reflexivity|]. cbn [py_str_drop]. destruct (Ascii.eqb c "^"); reflexivity.
+  destruct s as [|c r]; [reflexivity|]. cbn [py_str_drop].
+  change "^" with (String "^"%char ""). rewrite (prefix_char "^"%char (String c r)), (Ascii.eqb_sym "^"%char c).
+  destruct (Ascii.eqb c "^"); reflexivity.
 Qed.
 
-(* ====================================================================== *)
 Section Agree.
 Variable N : numops.
 Variable M : qmodule.
@@ -306,20 +306,20 @@ Proof.
   rewrite (py_for_range_zip _ (fun x v st => Val (pstep h t (sel_num d) st x v)) _ si_names sg 0 (eq_sym Hl)).
   2:{ intros j x v st Hx Hv. index_names j x v Hx Hv sg. unfold pstep, sel_num, seg.
       destruct ((0 <? v)%Z || (v <? 0)%Z && negb d) eqn:C; [|reflexivity].
-      rewrite (num_shown d v C), py_len_pos, py_str_of_int_zstr.
+      rewrite (num_shown d v C), ?py_len_pos, py_str_of_int_zstr.
       destruct (String.eqb st ""), (v =? 1)%Z; cbn [bind negb]; rewrite ?sapp_assoc; reflexivity. }
   rewrite (pass_loop (sel_num d) h t si_names sg si_names_nonempty). cbn [bind].
   destruct d.
   - rewrite (py_for_range_zip _ (fun x v st => Val (pstep h t sel_den st x v)) _ si_names sg 0 (eq_sym Hl)).
     2:{ intros j x v st Hx Hv. index_names j x v Hx Hv sg. unfold pstep, sel_den, seg.
         destruct (v <? 0)%Z eqn:C; [|reflexivity].
-        rewrite (den_shown v C), py_len_pos, py_str_of_int_zstr.
+        rewrite (den_shown v C), ?py_len_pos, py_str_of_int_zstr.
         destruct (String.eqb st ""), (- v =? 1)%Z; cbn [bind negb]; rewrite ?sapp_assoc; reflexivity. }
     rewrite (pass_loop sel_den h t si_names sg si_names_nonempty). cbn [bind].
     set (s := join_items h t (pass_items (sel_num true) si_names sg)).
     set (tt := join_items h t (pass_items sel_den si_names sg)).
-    rewrite <- slash_join. destruct (0 <? py_len tt)%Z; reflexivity.
-  - cbn [bind py_len String.length Z.of_nat Z.ltb Z.compare]. reflexivity.
+    rewrite ?py_len_pos. rewrite <- slash_join. destruct (String.eqb tt ""); reflexivity.
+  - reflexivity.
 Qed.
 
 Lemma siunit_text : forall (a : num) sg u, List.length sg = 9%nat ->
@@ -948,16 +948,17 @@ Proof.
       - destruct (Hd _ _ G) as [v Hv]. subst g. assert (S : sig_at d u = v) by (unfold sig_at; rewrite G; reflexivity).
         rewrite S. cbn [bind].
         destruct ((0 <? v)%Z || (v <? 0)%Z && negb dv) eqn:C; [|reflexivity].
-        rewrite (num_shown dv v C), py_len_pos, py_str_of_int_zstr.
+        rewrite (num_shown dv v C), ?py_len_pos, py_str_of_int_zstr.
         destruct (String.eqb st ""), (v =? 1)%Z; cbn [bind negb]; rewrite ?sapp_assoc; reflexivity.
       - rewrite (sig_at_missing d u G). reflexivity. }
   rewrite names_loop, (pass_text h t (sel_num dv) si_names (map (sig_at d) si_names) si_names_nonempty). cbn [bind].
   set (s := join_items h t (pass_items (sel_num dv) si_names (map (sig_at d) si_names))).
   assert (Hfin : forall tt : string,
-    (do s_ <- (if (py_len s =? 0)%Z then Val "1" else Val s);
-     if (0 <? py_len tt)%Z then Val (s_ ++ "/" ++ tt)%string else Val s_)
+    (do s_ <- (if String.eqb s "" then Val "1" else Val s);
+     if negb (String.eqb tt "") then Val (s_ ++ "/" ++ tt)%string else Val s_)
     = Val (let s0 := if String.eqb s "" then "1" else s in if String.eqb tt "" then s0 else (s0 ++ "/" ++ tt)%string)).
-  { intros tt. rewrite py_len_zero. destruct (String.eqb s ""); cbn [bind]; destruct tt; reflexivity. }
+  { intros tt. destruct (String.eqb s ""); cbn [bind]; destruct tt; reflexivity. }
+  rewrite ?py_len_zero, ?py_len_pos.
   destruct dv.
   - rewrite (py_for_ext _ _ _ (fun u st => Val (pstep h t sel_den st u (sig_at d u)))).
     2:{ intros u st. unfold py_str_in, gmem, py_sidict_get, pstep, sel_den, seg.
@@ -965,7 +966,7 @@ Proof.
         - destruct (Hd _ _ G) as [v Hv]. subst g. assert (S : sig_at d u = v) by (unfold sig_at; rewrite G; reflexivity).
           rewrite S. cbn [bind].
           destruct (v <? 0)%Z eqn:C; [|reflexivity].
-          rewrite (den_shown v C), py_len_pos, py_str_of_int_zstr.
+          rewrite (den_shown v C), ?py_len_pos, py_str_of_int_zstr.
           destruct (String.eqb st ""), (- v =? 1)%Z; cbn [bind negb]; rewrite ?sapp_assoc; reflexivity.
         - rewrite (sig_at_missing d u G). reflexivity. }
     rewrite names_loop, (pass_text h t sel_den si_names (map (sig_at d) si_names) si_names_nonempty). cbn [bind].
@@ -985,33 +986,35 @@ Qed.
 (* SI.str_to_sisig: the while loop is the two sweeps of [scan]              *)
 (* ====================================================================== *)
 Local Open Scope string_scope.
-Definition pstate := (string * list Z * Z * Z)%type.
+Definition pstate := (Z * Z * list Z * string)%type.
+(* the loop state (the variables the body assigns, in alphabetical order: div, i, ret, s) *)
+Definition mkst (s : string) (ret : list Z) (i divs : Z) : pstate := (divs, i, ret, s).
 Definition pfinish (st : pstate) : result (list Z) :=
-  let '(s_, ret_, i_, div_) := st in if negb (py_len s_ =? 0)%Z then Raise ValueError else Val ret_.
+  let '(div_, i_, ret_, s_) := st in if negb (String.eqb s_ "") then Raise ValueError else Val ret_.
 
 (* test and body of the generated loop, taken out of the generated definition itself *)
 Definition parser_parts :
   { cb : (pstate -> bool) * (pstate -> result pstate) |
-    forall s, gen_SI_str_to_sisig N M s = do st <- py_while 64 (fst cb) (snd cb) (s, sig0, 0%Z, 1%Z); pfinish st }.
+    forall s, gen_SI_str_to_sisig N M s = do st <- py_while 64 (fst cb) (snd cb) (mkst s sig0 0%Z 1%Z); pfinish st }.
 Proof. eexists (_, _). intros s. unfold gen_SI_str_to_sisig. cbv zeta. cbn [fst snd]. reflexivity. Defined.
 Definition ptest : pstate -> bool := fst (proj1_sig parser_parts).
 Definition pbody : pstate -> result pstate := snd (proj1_sig parser_parts).
 
 Lemma gen_parser_unfold : forall s,
-  gen_SI_str_to_sisig N M s = do st <- py_while 64 ptest pbody (s, sig0, 0%Z, 1%Z); pfinish st.
+  gen_SI_str_to_sisig N M s = do st <- py_while 64 ptest pbody (mkst s sig0 0%Z 1%Z); pfinish st.
 Proof. exact (proj2_sig parser_parts). Qed.
 
-Lemma ptest_eq : forall s ret i d, ptest (s, ret, i, d) = (i <? 9)%Z.
+Lemma ptest_eq : forall s ret i d, ptest (mkst s ret i d) = (i <? 9)%Z.
 Proof. reflexivity. Qed.
 
 (* what one iteration does at position |pre| (unit name u, entry r), in the words of the model *)
 Definition slash_m (divs : Z) (pre ret' : list Z) (s' : string) (rr : Z) : result pstate :=
-  if prefix "/" s' then (if (divs =? -1)%Z then Raise ValueError else Val (py_str_drop 1 s', (pre ++ rr :: ret')%list, 0%Z, (-1)%Z))
-  else Val (s', (pre ++ rr :: ret')%list, Z.of_nat (S (List.length pre)), divs).
+  if prefix "/" s' then (if (divs =? -1)%Z then Raise ValueError else Val (mkst (py_str_drop 1 s') ((pre ++ rr :: ret')%list) 0%Z (-1)%Z))
+  else Val (mkst s' ((pre ++ rr :: ret')%list) (Z.of_nat (S (List.length pre))) divs).
 
 Definition step_m (u : string) (pre : list Z) (r : Z) (ret' : list Z) (s : string) (divs : Z) : result pstate :=
   if prefix u s then
-    if String.eqb u "m" && prefix "mol" s then Val (s, (pre ++ r :: ret')%list, Z.of_nat (S (List.length pre)), divs)
+    if String.eqb u "m" && prefix "mol" s then Val (mkst s ((pre ++ r :: ret')%list) (Z.of_nat (S (List.length pre))) divs)
     else match parse_exp divs (py_str_drop (String.length u) s) with
          | None => Raise ValueError
          | Some (e, s2) => if negb (r =? 0)%Z then Raise ValueError
@@ -1020,9 +1023,10 @@ Definition step_m (u : string) (pre : list Z) (r : Z) (ret' : list Z) (s : strin
   else slash_m divs pre ret' s r.
 
 Lemma strip_dot : forall s2 : string,
-  match s2 with String "."%char q => q | _ => s2 end = if String.eqb (py_str_take 1 s2) "." then py_str_drop 1 s2 else s2.
+  match s2 with String "."%char q => q | _ => s2 end = if prefix "." s2 then py_str_drop 1 s2 else s2.
 Proof.
-  intros s2. rewrite match_dot. change "." with (String "."%char ""). rewrite eqb_take1. destruct s2; reflexivity.
+  intros s2. rewrite match_dot. destruct s2 as [|c r]; [reflexivity|].
+  change "." with (String "."%char ""). rewrite (prefix_char "."%char (String c r)), (Ascii.eqb_sym "."%char c). reflexivity.
 Qed.
 
 Ltac next_test t :=
@@ -1037,15 +1041,15 @@ Proof. intros [|c r] e; simpl; [discriminate|]. intros ->. discriminate. Qed.
 
 Lemma body_step : forall prenames u rest pre r ret' s divs,
   (prenames ++ u :: rest)%list = si_names -> List.length prenames = List.length pre ->
-  pbody (s, (pre ++ r :: ret')%list, Z.of_nat (List.length pre), divs) = step_m u pre r ret' s divs.
+  pbody (mkst s ((pre ++ r :: ret')%list) (Z.of_nat (List.length pre)) divs) = step_m u pre r ret' s divs.
 Proof.
   intros prenames u rest pre r ret' s divs Hn Hl.
-  unfold pbody, parser_parts. cbn [proj1_sig snd].
+  unfold pbody, parser_parts, mkst. cbn [proj1_sig snd].
   change ["rad"; "sr"; "kg"; "m"; "s"; "A"; "K"; "mol"; "cd"] with si_names. rewrite <- Hn.
   assert (IX : py_index (prenames ++ u :: rest)%list (Z.of_nat (List.length pre)) = Val u)
     by (rewrite <- Hl; apply py_index_app).
   rewrite IX. cbn [bind].
-  unfold step_m, slash_m, py_startswith. rewrite parse_exp_tests. unfold parse_exp_t.
+  unfold step_m, slash_m, mkst, py_startswith. rewrite parse_exp_tests. unfold parse_exp_t.
   (* follow the generated code: decide the test it evaluates next (the model evaluates the same tests) *)
   repeat (cbn [bind fst snd]; rewrite ?strip_dot, ?py_index_app, ?py_list_set_app;
           match goal with
@@ -1062,7 +1066,7 @@ Definition W (fuel : nat) (st : pstate) : result pstate := py_while fuel ptest p
 
 Lemma W_step : forall prenames u rest pre r ret' s divs k,
   (prenames ++ u :: rest)%list = si_names -> List.length prenames = List.length pre ->
-  W (S k) (s, (pre ++ r :: ret')%list, Z.of_nat (List.length pre), divs)
+  W (S k) (mkst s ((pre ++ r :: ret')%list) (Z.of_nat (List.length pre)) divs)
   = do st' <- step_m u pre r ret' s divs; W k st'.
 Proof.
   intros prenames u rest pre r ret' s divs k Hn Hl. unfold W. cbn [py_while]. rewrite ptest_eq.
@@ -1071,7 +1075,7 @@ Proof.
   rewrite Hlt, (body_step prenames u rest pre r ret' s divs Hn Hl). reflexivity.
 Qed.
 
-Lemma W_done : forall s ret divs k, W (S k) (s, ret, 9%Z, divs) = Val (s, ret, 9%Z, divs).
+Lemma W_done : forall s ret divs k, W (S k) (mkst s ret 9%Z divs) = Val (mkst s ret 9%Z divs).
 Proof. reflexivity. Qed.
 
 Lemma scan_neg_no_slash : forall us ret s s' l, scan us ret s (-1) <> ScanSlash s' l.
@@ -1114,8 +1118,8 @@ Qed.
 
 Definition sweep_spec (n0 : nat) (pre : list Z) (st : pstate) (divs : Z) (res : scan_result) : Prop :=
   match res with
-  | ScanDone s' l => forall fuel, W (n0 + fuel) st = W fuel (s', (pre ++ l)%list, 9%Z, divs)
-  | ScanSlash s' l => exists n, (1 <= n <= n0)%nat /\ forall fuel, W (n + fuel) st = W fuel (s', (pre ++ l)%list, 0%Z, (-1)%Z)
+  | ScanDone s' l => forall fuel, W (n0 + fuel) st = W fuel (mkst s' ((pre ++ l)%list) 9%Z divs)
+  | ScanSlash s' l => exists n, (1 <= n <= n0)%nat /\ forall fuel, W (n + fuel) st = W fuel (mkst s' ((pre ++ l)%list) 0%Z (-1)%Z)
   | ScanErr => exists n, (1 <= n <= n0)%nat /\ forall fuel, W (n + fuel) st = Raise ValueError
   end.
 
@@ -1132,7 +1136,7 @@ Qed.
 
 Lemma sweep : forall rest prenames pre ret' s divs,
   (prenames ++ rest)%list = si_names -> List.length prenames = List.length pre -> List.length ret' = List.length rest ->
-  sweep_spec (List.length rest) pre (s, (pre ++ ret')%list, Z.of_nat (List.length pre), divs) divs (scan rest ret' s divs).
+  sweep_spec (List.length rest) pre (mkst s ((pre ++ ret')%list) (Z.of_nat (List.length pre)) divs) divs (scan rest ret' s divs).
 Proof.
   induction rest as [|u rest IH]; intros prenames pre ret' s divs Hn Hl Hr.
   - destruct ret'; [|discriminate]. cbn [scan sweep_spec List.length Nat.add]. intros fuel.
@@ -1141,15 +1145,15 @@ Proof.
     assert (Hn' : ((prenames ++ [u]) ++ rest)%list = si_names) by (rewrite <- app_assoc; exact Hn).
     assert (Hl' : forall x : Z, List.length (prenames ++ [u]) = List.length (pre ++ [x])) by (intros; rewrite !app_length; simpl; lia).
     (* the next position, entry x stored at this one *)
-    assert (Next : forall x t, step_m u pre r ret' s divs = Val (t, (pre ++ x :: ret')%list, Z.of_nat (S (List.length pre)), divs) ->
-              sweep_spec (S (List.length rest)) pre (s, (pre ++ r :: ret')%list, Z.of_nat (List.length pre), divs) divs
+    assert (Next : forall x t, step_m u pre r ret' s divs = Val (mkst t ((pre ++ x :: ret')%list) (Z.of_nat (S (List.length pre))) divs) ->
+              sweep_spec (S (List.length rest)) pre (mkst s ((pre ++ r :: ret')%list) (Z.of_nat (List.length pre)) divs) divs
                          (cons_res x (scan rest ret' t divs))).
-    { intros x t Hstep. apply sweep_cons with (st1 := (t, ((pre ++ [x]) ++ ret')%list, Z.of_nat (List.length (pre ++ [x])), divs)).
+    { intros x t Hstep. apply sweep_cons with (st1 := (mkst t (((pre ++ [x]) ++ ret')%list) (Z.of_nat (List.length (pre ++ [x]))) divs)).
       - intros k. rewrite (W_step prenames u rest pre r ret' s divs k Hn Hl), Hstep. cbn [bind].
         rewrite <- app_assoc, app_length. simpl. rewrite Nat.add_1_r. reflexivity.
       - apply (IH (prenames ++ [u])%list (pre ++ [x])%list ret' t divs Hn' (Hl' x)). lia. }
     assert (Slash : forall x t, step_m u pre r ret' s divs = slash_m divs pre ret' t x ->
-              sweep_spec (S (List.length rest)) pre (s, (pre ++ r :: ret')%list, Z.of_nat (List.length pre), divs) divs
+              sweep_spec (S (List.length rest)) pre (mkst s ((pre ++ r :: ret')%list) (Z.of_nat (List.length pre)) divs) divs
                 (if prefix "/" t then (if (divs =? -1)%Z then ScanErr else ScanSlash (sdrop 1 t) (x :: ret'))
                  else cons_res x (scan rest ret' t divs))).
     { intros x t Hstep. unfold slash_m in Hstep. destruct (prefix "/" t) eqn:P.
@@ -1161,7 +1165,7 @@ Proof.
           rewrite py_str_drop_sdrop. reflexivity.
       - apply Next. exact Hstep. }
     assert (Err : step_m u pre r ret' s divs = Raise ValueError ->
-              sweep_spec (S (List.length rest)) pre (s, (pre ++ r :: ret')%list, Z.of_nat (List.length pre), divs) divs ScanErr).
+              sweep_spec (S (List.length rest)) pre (mkst s ((pre ++ r :: ret')%list) (Z.of_nat (List.length pre)) divs) divs ScanErr).
     { intros Hstep. exists 1%nat. split; [lia|]. intros fuel. cbn [Nat.add].
       rewrite (W_step prenames u rest pre r ret' s divs fuel Hn Hl), Hstep. reflexivity. }
     cbn [scan List.length]. unfold step_m in Next, Slash, Err. rewrite py_str_drop_sdrop in Next, Slash, Err.
@@ -1174,13 +1178,13 @@ Proof.
 Qed.
 
 Lemma pfinish_eq : forall s ret i d,
-  pfinish (s, ret, i, d) = if String.eqb s "" then Val ret else Raise ValueError.
-Proof. intros. unfold pfinish. rewrite py_len_zero. destruct (String.eqb s ""); reflexivity. Qed.
+  pfinish (mkst s ret i d) = if String.eqb s "" then Val ret else Raise ValueError.
+Proof. intros. unfold pfinish, mkst. destruct (String.eqb s ""); reflexivity. Qed.
 
 (* SI.str_to_sisig *)
 Theorem gen_SI_str_to_sisig_eq : forall s, gen_SI_str_to_sisig N M s = str_to_sisig s.
 Proof.
-  intros s. rewrite gen_parser_unfold. unfold str_to_sisig. fold (W 64 (s, sig0, 0%Z, 1%Z)).
+  intros s. rewrite gen_parser_unfold. unfold str_to_sisig. fold (W 64 (mkst s sig0 0%Z 1%Z)).
   pose proof (sweep si_names [] [] sig0 s 1%Z eq_refl eq_refl eq_refl) as S1.
   pose proof (scan_length si_names sig0 s 1%Z eq_refl) as L1.
   cbn [app List.length Z.of_nat] in S1. change (Datatypes.length si_names) with 9%nat in S1.
